@@ -18,6 +18,17 @@
 /* ------------------------------------------------------------------ ghost state of the unit
  * (havocked by xv_ctl_ghost_havoc() at the start of every harness; C would zero-initialise it) */
 
+/* Object sizes.  CBMC types a heap object whose allocation size is a compile-time constant as the struct that size
+ * belongs to and then encodes every write at a symbolic offset as an update of the whole 38 KB (reply) / 76 KB (struct
+ * ctl) bit-vector -- add_attr alone did not finish in 10 minutes.  With a size the simplifier cannot fold, the object is a
+ * byte array handled by the array theory.  xv_ctl_z is constrained to 0 by TWO requires clauses (>= 0, <= 0) of every
+ * contract, so the solver knows the size exactly (an off-by-one past the end is still caught); only constant
+ * propagation does not. */
+long xv_ctl_z;
+#define XV_CTL_SIZEOF(T) (sizeof(T) + (size_t)xv_ctl_z)
+#define XV_CTL_Z_LO (xv_ctl_z >= 0)
+#define XV_CTL_Z_HI (xv_ctl_z <= 0)
+
 /* xpoll fd registrations: reg ids are 0..XV_CTL_REGS-1 (assumption: the real table never grows beyond that) */
 #define XV_CTL_REGS 4096
 struct xv_ctl_ep_s {
@@ -63,8 +74,10 @@ size_t xv_ctl_i;               /* ghost index (never assigned): an ARBITRARY pos
 int xv_ctl_i_type; size_t xv_ctl_i_len; uint8_t xv_ctl_i_val_j; char xv_ctl_i_name_j; /* the xv_ctl_i-th reportable attribute */
 
 #ifdef XV_CBMC
+char nondet_char(void);
 static inline void xv_ctl_ghost_havoc(void)
 {
+    xv_ctl_z = nondet_long();
     struct xv_ctl_ep_s nd;      /* uninitialised: arbitrary */
     xv_ctl_ep = nd;
     struct xpoll *ndp; xv_ctl_xpoll = ndp;
@@ -75,12 +88,12 @@ static inline void xv_ctl_ghost_havoc(void)
     xv_ctl_send_calls = nondet_long(); xv_ctl_send_fd = nondet_int(); xv_ctl_send_len = nondet_size_t(); xv_ctl_send_rc = nondet_long();
     xv_ctl_send_errno = nondet_int(); const void *ndb; xv_ctl_send_buf = ndb; xv_ctl_send_j = nondet_uchar(); xv_ctl_j = nondet_size_t();
     xv_ctl_accept_rc = nondet_int();
-    xv_ctl_unlink_calls = nondet_long(); xv_ctl_unlink_p = (char)nondet_uchar(); xv_ctl_gsn_ok = nondet_bool();
-    xv_ctl_bound_p = (char)nondet_uchar(); xv_ctl_p = nondet_size_t();
+    xv_ctl_unlink_calls = nondet_long(); xv_ctl_unlink_p = nondet_char(); xv_ctl_gsn_ok = nondet_bool();
+    xv_ctl_bound_p = nondet_char(); xv_ctl_p = nondet_size_t();
     xv_ctl_get_rv = nondet_int(); xv_ctl_get_errno = nondet_int(); xv_ctl_get_type = nondet_int(); xv_ctl_get_j = nondet_uchar();
     xv_ctl_get_calls = nondet_long();
     xv_ctl_all_calls = nondet_long(); xv_ctl_all_n = nondet_size_t(); xv_ctl_i = nondet_size_t();
-    xv_ctl_i_type = nondet_int(); xv_ctl_i_len = nondet_size_t(); xv_ctl_i_val_j = nondet_uchar(); xv_ctl_i_name_j = (char)nondet_uchar();
+    xv_ctl_i_type = nondet_int(); xv_ctl_i_len = nondet_size_t(); xv_ctl_i_val_j = nondet_uchar(); xv_ctl_i_name_j = nondet_char();
 }
 #endif
 
@@ -88,6 +101,72 @@ static inline void xv_ctl_ghost_havoc(void)
 
 /* an errno value a failing system call leaves: any positive int */
 static inline int xv_ctl_any_errno(void) { int e = nondet_int(); __CPROVER_assume(e > 0); return e; }
+
+/* ------------------------------------------------------------------ strcpy(3), TRUSTED(libc)
+ * CBMC's own model is a byte loop; unwound, its 64+ single-byte writes at a symbolic offset of the 38 KB reply made
+ * add_attr cost 8 minutes.  This model is loop-free: n = strlen(src) (sources of more than XV_STRCPY_MAX characters are a
+ * failed obligation, not a silently cut path); the n+1 destination bytes must be writable AS ONE SLICE (so a copy that
+ * runs past the destination array into the next struct member is an assigns violation); they become ARBITRARY except
+ * for the terminator and the byte at the ghost offset xv_ctl_j, which equal the source.  Real strcpy copies every byte,
+ * so every behaviour of strcpy is a behaviour of this model. */
+#define XV_STRCPY_MAX 95
+#define XV_SC1(p, k, n) ((size_t)(k) >= (n) || (p)[k] != 0)
+#define XV_SC4(p, k, n) (XV_SC1(p, k, n) && XV_SC1(p, (k) + 1, n) && XV_SC1(p, (k) + 2, n) && XV_SC1(p, (k) + 3, n))
+#define XV_SC16(p, k, n) (XV_SC4(p, k, n) && XV_SC4(p, (k) + 4, n) && XV_SC4(p, (k) + 8, n) && XV_SC4(p, (k) + 12, n))
+#define XV_SC96(p, n) (XV_SC16(p, 0, n) && XV_SC16(p, 16, n) && XV_SC16(p, 32, n) && XV_SC16(p, 48, n) && XV_SC16(p, 64, n) && XV_SC16(p, 80, n))
+char *strcpy(char *dst, const char *src)
+{
+    size_t room = __CPROVER_OBJECT_SIZE(src) - (size_t)__CPROVER_POINTER_OFFSET(src);
+    XV_ASSERT(__CPROVER_r_ok(src, 1), "strcpy model: source readable");
+    size_t lim = room - 1 < XV_STRCPY_MAX ? room - 1 : XV_STRCPY_MAX;   /* last offset that may be inspected */
+    size_t n = nondet_size_t();
+    __CPROVER_assume(n <= lim);
+#pragma CPROVER check push
+#pragma CPROVER check disable "pointer"
+#pragma CPROVER check disable "pointer-overflow"
+#pragma CPROVER check disable "bounds"
+    __CPROVER_assume(XV_SC96(src, n));             /* no NUL before n (reads at offsets < n <= lim < room) ... */
+#pragma CPROVER check pop
+    __CPROVER_assume(src[n] == 0 || n == lim);     /* ... and n is the first one, if there is any             */
+    XV_ASSERT(src[n] == 0, "strcpy model: source string terminated inside its object and within 95 characters");
+    char cj = xv_ctl_j <= n ? src[xv_ctl_j] : 0;
+    __CPROVER_havoc_slice(dst, n + 1);
+    if (xv_ctl_j <= n) dst[xv_ctl_j] = cj;
+    dst[n] = 0;
+    return dst;
+}
+
+/* memset(3), TRUSTED(libc): CBMC expands a constant-size memset (clear_attr: 512 bytes) into 512 single-byte updates of
+ * the 38 KB reply (16 M variables, solver out of memory).  Loop-free model with a size constant propagation cannot
+ * fold: the region must be writable as one slice and becomes ARBITRARY except at the ghost offset xv_ctl_j, where it
+ * holds the fill byte.  Real memset fills every byte, so every behaviour of memset is a behaviour of this model. */
+void *memset(void *s, int c, size_t n)
+{
+    if (n > 0) {
+        __CPROVER_havoc_slice(s, n + (size_t)xv_ctl_z);
+        if (xv_ctl_j < n) ((unsigned char *)s)[xv_ctl_j] = (unsigned char)c;
+    }
+    return s;
+}
+
+/* strlen(3), TRUSTED(libc): loop-free, same scheme (a repaired add_attr has to measure the name before copying it) */
+size_t strlen(const char *src)
+{
+    size_t room = __CPROVER_OBJECT_SIZE(src) - (size_t)__CPROVER_POINTER_OFFSET(src);
+    XV_ASSERT(__CPROVER_r_ok(src, 1), "strlen model: string readable");
+    size_t lim = room - 1 < XV_STRCPY_MAX ? room - 1 : XV_STRCPY_MAX;
+    size_t n = nondet_size_t();
+    __CPROVER_assume(n <= lim);
+#pragma CPROVER check push
+#pragma CPROVER check disable "pointer"
+#pragma CPROVER check disable "pointer-overflow"
+#pragma CPROVER check disable "bounds"
+    __CPROVER_assume(XV_SC96(src, n));
+#pragma CPROVER check pop
+    __CPROVER_assume(src[n] == 0 || n == lim);
+    XV_ASSERT(src[n] == 0, "strlen model: string terminated inside its object and within 95 characters");
+    return n;
+}
 
 /* ------------------------------------------------------------------ xpoll (libxcm/core/xpoll.c), TRUSTED(xpoll)
  * The real functions abort (ut_assert) when handed an invalid registration id or a negative fd: those are
